@@ -48,12 +48,19 @@ GraphSpec ==
       g3s |-> [gtype |-> "simple",    spec |-> <<"grid", "3", "2", "splitedges", "2">>, n |-> 8, r |-> 0],
       g4a |-> [gtype |-> "simple",    spec |-> <<"grid", "2", "2", "addedges", "1", "splitedges", "1">>, n |-> 5, r |-> 0],
       bpa |-> [gtype |-> "bipartite", spec |-> <<"empty", "3", "3", "plantbiclique", "2", "2", "addedges", "2">>, n |-> 3, r |-> 3],
+      \* graphs read from files the harness writes ("%file:<name>" stands for the path): the null graph,
+      \* a path on three vertices, and the same path file followed by a modifier
+      nul |-> [gtype |-> "simple",    spec |-> <<"%file:null.dimacs">>,                  n |-> 0, r |-> 0],
+      fp3 |-> [gtype |-> "simple",    spec |-> <<"%file:p3.dimacs">>,                    n |-> 3, r |-> 0],
+      fpk |-> [gtype |-> "simple",    spec |-> <<"%file:p3.dimacs", "plantclique", "3">>, n |-> 3, r |-> 0],
+      fpa |-> [gtype |-> "simple",    spec |-> <<"%file:p3.dimacs", "addedges", "1">>,   n |-> 3, r |-> 0],
       b23 |-> [gtype |-> "bipartite", spec |-> <<"complete", "2", "3">>,        n |-> 2, r |-> 3],
       bsh |-> [gtype |-> "bipartite", spec |-> <<"shift", "3", "4", "1", "2">>, n |-> 3, r |-> 4],
       py2 |-> [gtype |-> "dag",       spec |-> <<"pyramid", "2">>,              n |-> 6, r |-> 0],
       pa3 |-> [gtype |-> "dag",       spec |-> <<"path", "3">>,                 n |-> 4, r |-> 0],
       tr2 |-> [gtype |-> "dag",       spec |-> <<"tree", "2">>,                 n |-> 7, r |-> 0] ]
 Simple == {"g4", "k3", "e2", "k4p"}
+FromFile == {"nul", "fp3", "fpk", "fpa"}
 Modified == {"g3s", "g4a"}          \* graphs built with random modifiers: only the saved file names them
 Bips   == {"b23", "bsh"}
 Dags   == {"py2", "pa3", "tr2"}
@@ -122,6 +129,14 @@ GraphFamilyCmds ==
   \cup {Cmd(<<"tiling">> \o GTok(g), Call("Tiling", <<Gr(g)>>)) : g \in Simple \cup Modified}
   \cup {Cmd(<<"kcolor", "2">> \o GTok(g), Call("GraphColoringFormula", <<Gr(g), I(2)>>)) : g \in Modified}
   \cup {Cmd(<<"tseitin", "first">> \o GTok(g), Call("TseitinFormula", <<Gr(g), Il(Charges("first", GraphSpec[g].n))>>)) : g \in Modified}
+  \* the same file named twice in one command line, the second time with a modifier: each argument
+  \* is its own graph
+  \cup {Cmd(<<"iso">> \o GTok(g) \o <<"-e">> \o GTok(h), Call("GraphIsomorphism", <<Gr(g), Gr(h)>>)) :
+            g \in FromFile, h \in FromFile}
+  \cup {Cmd(<<"iso">> \o GTok(g), Call("GraphAutomorphism", <<Gr(g)>>)) : g \in FromFile}
+  \cup {Cmd(<<"subgraph", "-G">> \o GTok(g) \o <<"-H">> \o GTok(h),
+            Call("SubgraphFormula", <<Gr(g), Gr(h), Bo(FALSE), Bo(FALSE)>>)) : g \in {"fpk", "fpa"}, h \in {"fp3", "nul"}}
+  \cup {Cmd(<<"kcolor", "2">> \o GTok(g), Call("GraphColoringFormula", <<Gr(g), I(2)>>)) : g \in FromFile}
   \cup {Cmd(<<"php">> \o GTok("bpa"), Call("GraphPigeonholePrinciple", <<Gr("bpa"), Bo(FALSE), Bo(FALSE)>>))}
   \cup {Cmd(<<"iso">> \o GTok(g), Call("GraphAutomorphism", <<Gr(g)>>)) : g \in Simple}
   \cup {Cmd(<<"iso">> \o GTok(g) \o <<"-e">> \o GTok(h), Call("GraphIsomorphism", <<Gr(g), Gr(h)>>)) :
